@@ -117,6 +117,10 @@ class _C10(Spec):
             def add(e):
                 if e not in seen and -5364662400 <= e < 7258118400:
                     seen.add(e)
+                    if len(seen) % 37 == 0:
+                        # calls the property says nothing about (other exported functions, ill-formed arguments)
+                        # for the days around this instant: the request that follows is answered as always
+                        g.append("zone abuse %d %d" % (J1970 + e // 86400 + rng.choice([-1, 0, 0, 1]), len(seen) // 37))
                     g.append("zone jhms %d" % e)
             prev = off0
             for t, o in tr:
@@ -175,7 +179,15 @@ class _C11(Spec):
                 if Y1900 <= t < Y2100:
                     d = J1970 + (t + o) // 86400
                     days.update(range(d - 3, d + 4))
+            near = set()
+            for t, o in tr:
+                if Y1900 <= t < Y2100:
+                    d = J1970 + (t + o) // 86400
+                    near.update(range(d - 1, d + 3))
             for jd in sorted(days):
+                if (jd in near and rng.random() < 0.7) or rng.random() < 0.03:
+                    # first the other exported functions / ill-formed calls for the day BEFORE (or this day)
+                    g.append("zone abuse %d %d" % (jd - rng.choice([1, 1, 0]), rng.randrange(2)))
                 g.append("zone dayiv %d" % jd)
                 if jd % 5 == 0:
                     g.append("zone midreg %d" % jd)
@@ -246,6 +258,8 @@ class _C12(Spec):
                 base = regular_day()
                 if any(j in bad for j in range(base - 5, base + 12)):
                     continue
+                if rng.random() < 0.12:
+                    g.append("zone abuse %d %d" % (base + rng.randrange(-2, 3), 1))   # ends with refused occurrence-set calls
                 g.append("zone occ %s %s" % (gen_set(base), gen_set(base)))
             groups.append(g)
         return [Stream("occurrence", None, groups=groups)]
